@@ -212,9 +212,9 @@ def _ctx_rules(ck: Check, prog: Program, b: FuncInfo) -> None:
                    f'changed before binding, so a call that a direct Python call could not bind (an unknown / the context name supplied by the '
                    f'client, an explicit null) is accepted, or a bindable one is refused')
     partials = [(n, c) for n in cfg.stmt_nodes() for c in calls_in(n) if dotted(c.func) in ('ft.partial', 'functools.partial', 'partial')]
-    if len(partials) != 1:
-        raise AnalysisError(f'{b.qualname}: expected one functools.partial call, found {len(partials)}')
-    pn, pc = partials[0]
+    if not partials:
+        raise AnalysisError(f'{b.qualname}: no functools.partial call found (the prepared call is not recognised)')
+    m_arg = dotted(vc.args[0]) if vc.args else None
     if not is_view:
         ex = kwarg(vc, 'exclude', 2)
         txt = norm(ex) if ex is not None else ''
@@ -229,14 +229,15 @@ def _ctx_rules(ck: Check, prog: Program, b: FuncInfo) -> None:
             if not (ckd.subject == 'self.context' and ckd.kind in ('truthy', 'is-none')):
                 ck.finding('CTX-EXCLUDED', b.qualname, 'exclusion condition', b.module.rel, vc.lineno,
                            f'exclude is conditional on `{norm(ex.test)}`, not on a context being configured')
-        # method validated and method called are the same object
-        m_arg = dotted(vc.args[0]) if vc.args else None
-        p_arg = dotted(pc.args[0]) if pc.args else None
-        ck.ob('SIG-SAME', f'{short(b.qualname)}: the validated callable is the callable that is invoked', m_arg == p_arg and m_arg is not None)
-        if m_arg != p_arg:
+        # method validated and method called are the same object (every prepared call)
+        bad_sig = [(pn, pc) for pn, pc in partials if (dotted(pc.args[0]) if pc.args else None) != m_arg or m_arg is None]
+        ck.ob('SIG-SAME', f'{short(b.qualname)}: the validated callable is the callable that is invoked', not bad_sig)
+        for pn, pc in bad_sig:
             ck.finding('SIG-SAME', b.qualname, 'validated and invoked callables differ', b.module.rel, pc.lineno,
-                       f'validate_method is given `{m_arg}` but `{p_arg}` is what gets called')
-        # CTX-WINS: injection after validation, before partial
+                       f'validate_method is given `{m_arg}` but `{dotted(pc.args[0]) if pc.args else None}` is what gets called')
+        # CTX-WINS: on every path on which a context is configured, the server context is injected after validation and before
+        # the call is prepared: by name into the validated mapping, or as the first positional argument
+        val_var = list(assigned_names(vn))[0] if assigned_names(vn) else None
         inj = []
         for n in cfg.stmt_nodes():
             a = n.ast
@@ -246,25 +247,66 @@ def _ctx_rules(ck: Check, prog: Program, b: FuncInfo) -> None:
             for c in calls_in(n):
                 if isinstance(c.func, ast.Attribute) and c.func.attr in ('append', 'insert') and c.args and dotted(c.args[-1]) == ctx_param:
                     inj.append(('positional', n, dotted(c.func.value)))
+        for pn, pc in partials:
+            for i, a in enumerate(pc.args):
+                if dotted(a) == ctx_param:
+                    inj.append(('positional', pn, f'<arg {i}>'))
         kinds = {k for k, _, _ in inj}
         ok = kinds == {'by-name', 'positional'}
-        order_ok = all(n.id in cfg.reachable(vn) and pn.id in cfg.reachable(n) for _, n, _ in inj)
-        val_var = list(assigned_names(vn))[0] if assigned_names(vn) else None
+        order_ok = all(n.id in cfg.reachable(vn) for _, n, _ in inj) and \
+            all(any(pn.id in cfg.reachable(n) or pn is n for pn, _ in partials) for _, n, _ in inj)
         target_ok = all((v == val_var) for k, _, v in inj if k == 'by-name')
+        # path rule
+        ctx_edges = []
+        for c in cfg.nodes:
+            if c.kind != 'cond':
+                continue
+            ckd = classify_cond(prog, b, c.ast)
+            if ckd.subject == 'self.context' and ckd.kind in ('truthy', 'is-none'):
+                for e in cfg.succ[c.id]:
+                    if e.label in ('T', 'F'):
+                        configured = ((e.label == 'T') != ckd.negated) if ckd.kind == 'truthy' else ((e.label == 'T') == ckd.negated)
+                        if configured:
+                            ctx_edges.append(e)
+        uninjected = []
+        for pn, pc in partials:
+            kw_vars = {dotted(k.value) for k in pc.keywords if k.arg is None}
+            star_vars = {dotted(a.value) for a in pc.args if isinstance(a, ast.Starred)}
+            sat = [n for k, n, v in inj if (k == 'by-name' and v in kw_vars) or (k == 'positional' and (v in star_vars or n is pn))]
+            if pn in sat:
+                continue
+            for e in ctx_edges:
+                if e.dst is pn or pn.id in cfg.reachable(e.dst, avoid_nodes=sat):
+                    if e.dst in sat:
+                        continue
+                    uninjected.append((pn, pc, e))
+                    break
+        path_ok = bool(ctx_edges) and not uninjected
         ck.ob('CTX-WINS', f'{short(b.qualname)}: the server context is injected after the client mapping is built (by name or first positional)',
-              ok and order_ok and target_ok, sample={'injections': sorted(kinds)})
+              ok and order_ok and target_ok and path_ok, sample={'injections': sorted(kinds), 'prepared_calls': len(partials)})
         if not ok:
             ck.finding('CTX-WINS', b.qualname, f'context injection modes {sorted(kinds)}', b.module.rel, b.node.lineno,
                        'Method.bind must inject the server context by name (kwargs[self.context] = context) or as first positional argument')
         elif not order_ok or not target_ok:
             ck.finding('CTX-WINS', b.qualname, 'context injected before the client arguments are merged', b.module.rel, inj[0][1].line,
                        'the server context must be written after (over) the client-derived mapping, otherwise a client-supplied value wins')
-        # positional list goes first into partial, injected only under self.positional
-        star = [a for a in pc.args if isinstance(a, ast.Starred)]
-        pos_ok = len(pc.args) >= 2 and isinstance(pc.args[1], ast.Starred)
-        if not pos_ok:
-            ck.finding('CTX-WINS', b.qualname, 'positional context not first', b.module.rel, pc.lineno,
-                       f'`{norm(pc)}`: the positional context must be the first positional argument of the call')
+        elif not ctx_edges:
+            ck.finding('CTX-WINS', b.qualname, 'injection not conditional on a configured context', b.module.rel, b.node.lineno,
+                       'no branch tests whether a context parameter is configured (self.context)')
+        else:
+            for pn, pc, e in uninjected:
+                ck.finding('CTX-WINS', b.qualname, 'prepared call without the context on a path with a configured context', b.module.rel, pc.lineno,
+                           f'`{norm(pc)[:80]}` is reachable from `{norm(e.src.ast)}`:{e.label} (context configured) without the context being injected')
+        # the positional context is the first positional argument
+        for pn, pc in partials:
+            pos_here = [i for i, a in enumerate(pc.args) if dotted(a) == ctx_param or
+                        (isinstance(a, ast.Starred) and any(k == 'positional' and v == dotted(a.value) for k, _, v in inj))]
+            if pos_here and pos_here[0] != 1:
+                ck.finding('CTX-WINS', b.qualname, 'positional context not first', b.module.rel, pc.lineno,
+                           f'`{norm(pc)}`: the positional context must be the first positional argument of the call')
+        if not any(any(dotted(a) == ctx_param or isinstance(a, ast.Starred) for a in pc.args[1:]) for _, pc in partials):
+            ck.finding('CTX-WINS', b.qualname, 'positional context not first', b.module.rel, partials[0][1].lineno,
+                       'no prepared call takes the positional context as its first positional argument')
     else:
         # ViewMethod: context goes to the view constructor; the bound method of that instance is validated and called
         ctor = [c for n in cfg.stmt_nodes() for c in calls_in(n) if dotted(c.func) == 'self.view_cls']
@@ -274,12 +316,11 @@ def _ctx_rules(ck: Check, prog: Program, b: FuncInfo) -> None:
         if not ok:
             ck.finding('CTX-WINS', b.qualname, 'context not passed to the view constructor', b.module.rel, b.node.lineno,
                        'a class-based view configured with a context must receive it through its constructor')
-        m_arg = dotted(vc.args[0]) if vc.args else None
-        p_arg = dotted(pc.args[0]) if pc.args else None
-        ck.ob('SIG-SAME', f'{short(b.qualname)}: the validated callable is the callable that is invoked', m_arg == p_arg and m_arg is not None)
-        if m_arg != p_arg:
+        bad_sig = [(pn, pc) for pn, pc in partials if (dotted(pc.args[0]) if pc.args else None) != m_arg or m_arg is None]
+        ck.ob('SIG-SAME', f'{short(b.qualname)}: the validated callable is the callable that is invoked', not bad_sig)
+        for pn, pc in bad_sig:
             ck.finding('SIG-SAME', b.qualname, 'validated and invoked callables differ', b.module.rel, pc.lineno,
-                       f'validate_method is given `{m_arg}` but `{p_arg}` is what gets called')
+                       f'validate_method is given `{m_arg}` but `{dotted(pc.args[0]) if pc.args else None}` is what gets called')
 
 
 def _bind_strict(ck: Check, prog: Program) -> None:
@@ -304,27 +345,38 @@ def _bind_strict(ck: Check, prog: Program) -> None:
         if len(stars) != 1 or len(dstars) != 1 or len(c.args) != 1 or len(c.keywords) != 1:
             problems.append((c.lineno, f'`{norm(c)}` must star-splat the positional list and double-splat the named mapping, nothing else'))
         else:
-            defs = {}
-            for st in walk_own(b.node):
-                if isinstance(st, ast.Assign) and isinstance(st.targets[0], ast.Name):
-                    defs[st.targets[0].id] = st.value
-            pa = defs.get(dotted(stars[0]) or '')
-            ka = defs.get(dotted(dstars[0]) or '')
+            # value flow: what is splatted is the client's params on the paths where it has the matching container type,
+            # an empty container otherwise (conditional expression or default + override alike)
+            from ..flow import Flow
+            fl = Flow(cfg)
 
-            def shape(e: Optional[ast.expr], kinds: Set[str]) -> bool:
-                if not isinstance(e, ast.IfExp) or dotted(e.body) != par_param:
-                    return False
-                t = e.test
-                if not (isinstance(t, ast.Call) and dotted(t.func) == 'isinstance' and dotted(t.args[0]) == par_param):
-                    return False
-                tp = t.args[1]
-                names = {dotted(x) for x in (tp.elts if isinstance(tp, ast.Tuple) else [tp])}
-                empty = (isinstance(e.orelse, (ast.Tuple, ast.List, ast.Dict)) and not getattr(e.orelse, 'elts', getattr(e.orelse, 'keys', [])))
-                return names <= kinds and bool(names) and empty
-            if not shape(pa, {'list', 'tuple'}):
-                problems.append((c.lineno, f'positional arguments must be `params if isinstance(params, (list, tuple)) else ()`, found `{norm(pa) if pa is not None else "?"}`'))
-            if not shape(ka, {'dict'}):
-                problems.append((c.lineno, f'named arguments must be `params if isinstance(params, dict) else {{}}`, found `{norm(ka) if ka is not None else "?"}`'))
+            def shape(e: ast.expr, kinds: Set[str]) -> Tuple[bool, str]:
+                alts = fl.alts(n, e)
+                seen_param = seen_empty = False
+                for al in alts:
+                    v = al.expr
+                    tests = []
+                    for c_, pol in al.guards:
+                        if isinstance(c_, ast.Call) and dotted(c_.func) == 'isinstance' and len(c_.args) == 2 and dotted(c_.args[0]) == par_param:
+                            tp = c_.args[1]
+                            tests.append(({dotted(x) for x in (tp.elts if isinstance(tp, ast.Tuple) else [tp])}, pol))
+                    if dotted(v) == par_param:
+                        if not any(names and names <= kinds and pol for names, pol in tests):
+                            return False, f'`{par_param}` is splatted without having been tested to be {sorted(kinds)}'
+                        seen_param = True
+                    elif isinstance(v, (ast.Tuple, ast.List, ast.Dict)) and not getattr(v, 'elts', getattr(v, 'keys', [])):
+                        if not any(names and names <= kinds and not pol for names, pol in tests):
+                            return False, f'the empty default `{norm(v)}` is used although `{par_param}` may be {sorted(kinds)}'
+                        seen_empty = True
+                    else:
+                        return False, f'`{norm(v)[:60]}` is neither `{par_param}` nor an empty container'
+                return (seen_param and seen_empty), ' | '.join(al.text()[:60] for al in alts)
+            okp, whyp = shape(stars[0], {'list', 'tuple'})
+            if not okp:
+                problems.append((c.lineno, f'positional arguments must be `params if isinstance(params, (list, tuple)) else ()`, found {whyp}'))
+            okk, whyk = shape(dstars[0], {'dict'})
+            if not okk:
+                problems.append((c.lineno, f'named arguments must be `params if isinstance(params, dict) else {{}}`, found {whyk}'))
         # nothing else in bind() may rewrite the params (e.g. dropping null members)
         for st in walk_own(b.node):
             if isinstance(st, (ast.DictComp, ast.ListComp)) and par_param in {y.id for y in ast.walk(st) if isinstance(y, ast.Name)}:
